@@ -715,8 +715,7 @@ func fieldFidelity(run *scen.Run) (detail string, checked int) {
 	pubs := map[string]scen.Step{}
 	subEntries := map[string]bool{}
 	unsubs := map[string]bool{}
-	run.Tr.Mu.Lock()
-	for _, s := range run.Subm {
+	for _, s := range run.SubmSnapshot() {
 		switch s.Step.Op {
 		case "pub":
 			pubs[s.Step.Tag] = s.Step
@@ -728,7 +727,6 @@ func fieldFidelity(run *scen.Run) (detail string, checked int) {
 			unsubs[fmt.Sprint(s.Step.Filters)] = true
 		}
 	}
-	run.Tr.Mu.Unlock()
 	// (DUP is the library's to set: 0 on a first transmission whatever the caller put there - C12 judges it)
 	for _, e := range run.Tr.Snapshot() {
 		if e.Kind != memnet.KWrite || e.Pkt == nil {
